@@ -134,11 +134,6 @@ def s_tok(stmts):
     return ';'.join('%d:%s' % (CID[d], ','.join(e_tok(e))) for d, e in stmts) if stmts else '[]'
 
 
-def tup(x):
-    """JSON round trip turns tuples into lists; the grammar functions index only, so lists are fine"""
-    return x
-
-
 # --------------------------------------------------------------------------- data
 def gen_data(seed, n, T, weights):
     """long-format person-period data; deterministic in its arguments"""
@@ -222,7 +217,8 @@ class Tap:
         self.spec = spec
         self.seencols = seencols
         self.calls = []
-        self.h_ok = True
+        self.h_ok = True          # reference invocation model.predict(frame) behaved as assumed
+        self.draw_ok = True       # what zEpid's _predict returned is one value per row (0/1 for binary models)
         self.h_n = 0
         self.pin = None if spec.get('pin') is None else np.random.default_rng([1302, int(spec['pin'])])
         if self.pin is not None:
@@ -266,7 +262,7 @@ class Tap:
         n = len(df)
         self.h_n += 1
         if r.shape != (n,) or (variable == 'binary' and not np.isin(r, [0, 1]).all()):
-            self.h_ok = False
+            self.draw_ok = False
         if variable == 'binary':
             pp = np.asarray(model.predict(df), dtype=float)
             if pp.shape != (n,) or not (np.all(pp >= 0) and np.all(pp <= 1)):
@@ -336,13 +332,14 @@ def transpose(tap, spec, tmax):
             break
         if c['kind'] != '?' and c['kind'] != kinds[pos]:
             problems.append('call %d is %s, expected %s' % (ci, c['kind'], kinds[pos]))
+        key = c['kind'] if c['kind'] in kinds else kinds[pos]      # attribute by model identity when it is known
         for r, u in enumerate(c['uid']):
-            per.setdefault(int(u), {}).setdefault(step, {})[pos] = (c['frame'][r], c['draws'][r], c['cols'])
+            per.setdefault(int(u), {}).setdefault(step, {})[key] = (c['frame'][r], c['draws'][r], c['cols'])
     for u, steps in per.items():
         if sorted(steps) != list(range(len(steps))):
             problems.append('uid %d simulated in steps %s (not an initial segment)' % (u, sorted(steps)))
         for s, calls in steps.items():
-            if sorted(calls) != list(range(cps)):
+            if sorted(calls) != sorted(kinds):
                 problems.append('uid %d step %d seen by calls %s' % (u, s, sorted(calls)))
     return per, kinds, problems
 
@@ -368,7 +365,6 @@ def model_request(spec, base_rows, per, kinds, tmax, outcols, seencols):
     kw['bcols'] = enc_list([CID[c] for c in BASECOLS], str)
     kw['base'] = enc_list([v for row in base_rows for v in row], rq)
     ncov = len(cs)
-    pos = {k: i for i, k in enumerate(kinds)}
     nsteps, dcov, da, dy, dc = [], [], [], [], []
     for u in range(n):
         steps = per.get(u, {})
@@ -379,10 +375,10 @@ def model_request(spec, base_rows, per, kinds, tmax, outcols, seencols):
         for s in range(m):
             calls = steps[s]
             for j in range(ncov):
-                dcov.append(float(calls[j][1]))
-            da.append(int(calls[pos['exp']][1]) if 'exp' in pos else 0)
-            dy.append(int(calls[pos['out']][1]))
-            dc.append(int(calls[pos['cens']][1]) if 'cens' in pos else 1)
+                dcov.append(float(calls[kinds[j]][1]))
+            da.append(int(calls['exp'][1]) if 'exp' in kinds else 0)
+            dy.append(int(calls['out'][1]))
+            dc.append(int(calls['cens'][1]) if 'cens' in kinds else 1)
     kw['nsteps'] = enc_list(nsteps, str)
     kw['dcov'] = enc_list(dcov, rq)
     kw['da'] = enc_list(da, str)
@@ -452,7 +448,7 @@ def run_case(spec, drv):
     if hooked:
         K(not problems, 'call sequence of _predict (full): ' + '; '.join(problems[:3]))
         K(not problems2, 'call sequence of _predict (low_memory): ' + '; '.join(problems2[:3]))
-    pos = {k: i for i, k in enumerate(kinds)}
+    K(tap.draw_ok and tap2.draw_ok, '_predict returns one value per row of the frame (0/1 for binary models)')
 
     # ============================== D: the property, directly on predicted_outcomes ==============================
     want_cols = ['uid_g_zepid', 'id'] + outcols
@@ -509,8 +505,8 @@ def run_case(spec, drv):
                 ok_lost = False
                 note('lost', 'uid %d has a record for interval %d but no model predicted for it' % (u, s))
                 continue
-            yd = calls[pos['out']][1]
-            ud = calls[pos['cens']][1] if 'cens' in pos else 1.0
+            yd = calls['out'][1]
+            ud = calls['cens'][1] if 'cens' in kinds else 1.0
             stopped = (yd == 1 and ud == 1) or ud == 0
             if s < m - 1 and stopped:
                 ok_stop = False                      # a record follows an event or censoring
@@ -523,17 +519,18 @@ def run_case(spec, drv):
             if rec['Y'] != (1 if (yd == 1 and ud == 1) else 0):
                 ok_cz = False                        # censoring zeroes the outcome; otherwise the drawn outcome
                 note('cz', 'uid %d interval %d: Y=%g, drawn outcome %g, drawn uncensored %g' % (u, s, rec['Y'], yd, ud))
-            if spec['plan'] == 'natural' and rec['A'] != calls[pos['exp']][1]:
+            if spec['plan'] == 'natural' and rec['A'] != calls['exp'][1]:
                 ok_nat = False
-                note('nat', 'uid %d interval %d: A=%g drawn %g' % (u, s, rec['A'], calls[pos['exp']][1]))
-            for j, c in enumerate(exec_order(spec)):
-                if rec[c['col']] != calls[j][1]:
+                note('nat', 'uid %d interval %d: A=%g drawn %g' % (u, s, rec['A'], calls['exp'][1]))
+            for c in exec_order(spec):
+                dv = calls['cov:' + c['col']][1]
+                if rec[c['col']] != dv:
                     ok_cov = False
-                    note('cov', 'uid %d interval %d: %s=%g drawn %g' % (u, s, c['col'], rec[c['col']], calls[j][1]))
+                    note('cov', 'uid %d interval %d: %s=%g drawn %g' % (u, s, c['col'], rec[c['col']], dv))
             if spec['plan'] == 'custom':
-                frame, _, cols = calls[pos['out']]
+                frame, _, cols = calls['out']
                 row = dict(zip(cols, frame.tolist()))
-                row['A'] = calls[pos['exp']][1]      # the rule is evaluated on the drawn exposure
+                row['A'] = float(calls['exp'][1])    # the rule is evaluated on the drawn exposure
                 if rec['A'] != (1 if c_val(spec['rule'], row) else 0):
                     ok_rule = False
                     note('rule', 'uid %d interval %d: A=%g but rule %s on row %s is %s' % (
@@ -581,23 +578,23 @@ def run_case(spec, drv):
                 calls = steps.get(s)
                 if calls is None or len(calls) != len(kinds):
                     continue
-                for p in range(len(kinds)):
+                for p in kinds:
                     frame, _, cols = calls[p]
                     row = dict(zip(cols, frame.tolist()))
                     for k, v in lags:
                         if s == 0:
                             if row[v] != base.loc[bid, v]:
                                 ok_lag0 = False
-                                note('lag0', 'uid %d (id %s) call %s: %s=%g, baseline %g' % (u, bid, kinds[p], v, row[v],
+                                note('lag0', 'uid %d (id %s) call %s: %s=%g, baseline %g' % (u, bid, p, v, row[v],
                                                                                          base.loc[bid, v]))
                         else:
-                            prev = steps[s - 1][pos['out']]
+                            prev = steps[s - 1]['out']
                             prow = dict(zip(prev[2], prev[0].tolist()))
                             # value of k in interval s-1: what the outcome model of that interval saw (the output
                             # record's own value for the exposure / covariates)
                             if row[v] != prow[k]:
                                 msg = 'uid %d interval %d call %s: %s=%g but %s was %g in interval %d' % (
-                                    u, s, kinds[p], v, row[v], k, prow[k], s - 1)
+                                    u, s, p, v, row[v], k, prow[k], s - 1)
                                 if (k, v) in chain_sources:
                                     bad_chain = True
                                     note('chain', msg)
@@ -654,7 +651,7 @@ def run_case(spec, drv):
             ok_shape = True
             for u in range(n):
                 for s in range(nsteps[u]):
-                    for p in range(len(kinds)):
+                    for p in kinds:
                         frame, _, cols = per[u][s][p]
                         if cols != seencols:
                             ok_shape = False
@@ -671,11 +668,6 @@ def run_case(spec, drv):
 
 
 # --------------------------------------------------------------------------- generators
-def gen_expr_int(rng, cols):
-    c = str(rng.choice(cols))
-    return ['var', c]
-
-
 def gen_atom(rng, covs):
     pool = [('L', [0, 1]), ('t_in', [0, 1, 2, 3]), ('A', [0, 1]), ('A_l1', [0, 1]), ('L_l1', [0, 1]),
             ('cumA', [0, 1, 2]), ('W0', [-0.5, 0.0, 0.5])]
